@@ -628,7 +628,13 @@ def _mk(d, files, srcdir, cached, dig):
     missing = [f for f in files if os.path.abspath(f) not in seen]
     if missing:
         raise AnalysisError("engine source files not reached by the translation unit: %s" % missing)
-    from . import cxinline, inventory
+    from . import cxinline, inventory, cxnames
+    if not os.environ.get("SA_CXNAMES_FREEZE"):
+        nlog = []
+        cxnames.align(tu, nlog)            # locals written back to the reference spelling (alpha-renaming), before inlining
+        tu.meta["renamed"] = nlog
+    else:
+        cxnames.freeze(tu)
     tu.meta["inlined"] = sorted(set(cxinline.run(tu, inventory.load()[0])))
     from . import cxnorm
     tu.meta["promoted"] = cxnorm.run(tu)
